@@ -21,7 +21,7 @@ def sh(cmd, timeout, env=None, cwd=None):
     t0 = time.time()
     try:
         r = subprocess.run(cmd, shell=True, cwd=cwd, env=e, timeout=timeout, stdout=subprocess.PIPE, stderr=subprocess.STDOUT, text=True)
-        return r.returncode, r.stdout[-3000:], round(time.time() - t0, 1)
+        return r.returncode, r.stdout, round(time.time() - t0, 1)
     except subprocess.TimeoutExpired:
         return 'timeout', '', timeout
 
@@ -41,7 +41,7 @@ for name in sorted(os.listdir(src)):
     rc, o, _ = sh('git -C %s apply %s' % (REPO, os.path.join(d, 'patch.diff')), 60)
     r['applies'] = rc == 0
     if rc != 0:
-        r['apply_output'] = o
+        r['apply_output'] = o[-2000:]
         res[name] = r
         continue
     rc, o, t = sh('%s -m pytest -q -p no:cacheprovider 2>&1 | tail -3' % PY, 900, {'PYTHONPATH': REPO + '/src'}, cwd=REPO)
@@ -52,7 +52,7 @@ for name in sorted(os.listdir(src)):
     rc, o, t = sh('%s harness/check.py %s --tier quick' % (PY, pid), 1800, {'VERIF_REPO': REPO}, cwd=V)
     r['check_rc'] = rc
     r['check_s'] = t
-    r['check_lines'] = [l for l in o.split('\n') if l.startswith(('VIOLATION', 'KNOWN', 'OK ', '  '))][:6]
+    r['check_lines'] = [l[:300] for l in o.split('\n') if l.startswith(('VIOLATION', 'KNOWN', 'OK ', '  '))][:6]
     r['detected'] = (rc == 1 and any(l.startswith('VIOLATION property=%s' % pid) for l in o.split('\n')))
     r['with_failing_input'] = any(l.startswith('VIOLATION') and 'no-failing-input-found' not in l for l in o.split('\n'))
     sh('git -C %s checkout -- .' % REPO, 60)
